@@ -60,9 +60,17 @@ class FnVerifier(Verifier):
                 names = [a.arg for a in lam.args.args]
                 vs = [z3.Int(fresh_name(n)) for n in names]
                 s = st.fork()
+                s.raw_index = True
                 for n, v in zip(names, vs):
                     s.env[n] = VInt(v)
                 body = self.ev.truthy(s, self.ev.ev(s, lam.body))
+                pats = []
+                for kw in e.keywords:
+                    if kw.arg == 'trigger':       # trigger=lambda k: <term>   (E-matching pattern for the quantifier)
+                        tv = self.ev.ev(s, kw.value.body)
+                        pats.append(tv.t)
+                if pats and f.id == 'forall':
+                    return VBool(z3.ForAll(vs, body, patterns=pats))
                 return VBool(z3.ForAll(vs, body) if f.id == 'forall' else z3.Exists(vs, body))
             if f.id == 'implies':
                 a = self.ev.truthy(st, self.ev.ev(st, e.args[0]))
